@@ -310,11 +310,12 @@ void vf_wait_started(uint32_t n) {
   }
 }
 
-uint8_t vf_nondet_u8() { return (uint8_t)next_input(8); }
-uint16_t vf_nondet_u16() { return (uint16_t)next_input(16); }
-uint32_t vf_nondet_u32() { return (uint32_t)next_input(32); }
-uint64_t vf_nondet_u64() { return next_input(64); }
-bool vf_nondet_bool() { return next_input(1) != 0; }
+static inline void in_sync() { if (g_threads_used && getenv("VF_SCHED_POINTS")) vf_yield(-7); }
+uint8_t vf_nondet_u8() { in_sync(); return (uint8_t)next_input(8); }
+uint16_t vf_nondet_u16() { in_sync(); return (uint16_t)next_input(16); }
+uint32_t vf_nondet_u32() { in_sync(); return (uint32_t)next_input(32); }
+uint64_t vf_nondet_u64() { in_sync(); return next_input(64); }
+bool vf_nondet_bool() { in_sync(); return next_input(1) != 0; }
 void vf_assume(bool c) {
   if (!c) {
     fflush(stdout);
